@@ -516,7 +516,8 @@ pub fn gen_len(rng: &mut Rng, allow_long: bool) -> usize {
         30..=54 => 3,
         55..=74 => 4,
         75..=89 => rng.usize_in(5, 8),
-        90..=97 => rng.usize_in(9, 12),
+        90..=95 => rng.usize_in(9, 12),
+        96..=97 => rng.usize_in(13, 40),
         _ => {
             if allow_long {
                 rng.usize_in(50, 200)
@@ -666,10 +667,11 @@ pub fn gen_kind(rng: &mut Rng) -> Kind {
     }
 }
 
-pub fn gen_func(rng: &mut Rng, allow_long: bool) -> FuncSpec {
+/// `derived_pct`: share (percent) of functions produced by the library itself rather than directly.
+pub fn gen_func(rng: &mut Rng, allow_long: bool, derived_pct: u64) -> FuncSpec {
     let n = gen_len(rng, allow_long);
     let r = rng.below(100);
-    if r < 6 {
+    if r < derived_pct / 5 {
         // linear(knots): any finite knots, out-of-order abscissae included
         let k = n + 1;
         let ends: Vec<f64> = if rng.chance(2, 3) {
@@ -680,7 +682,7 @@ pub fn gen_func(rng: &mut Rng, allow_long: bool) -> FuncSpec {
         let coefs = (0..k).map(|_| vec![gen_coef(rng), 0.0]).collect();
         return with_ops(rng, FuncSpec { kind: Kind::P(1), ends, coefs, source: Source::Linear, other: None, ops: vec![], post: Post::None });
     }
-    if r < 12 {
+    if r < 2 * derived_pct / 5 {
         // constrained_spline(knots): strictly increasing finite abscissae
         let k = n + 2;
         let mut x = rng.uniform(-10.0, 10.0);
@@ -694,19 +696,44 @@ pub fn gen_func(rng: &mut Rng, allow_long: bool) -> FuncSpec {
         let coefs = (0..k).map(|_| vec![gen_coef(rng), 0.0, 0.0, 0.0]).collect();
         return with_ops(rng, FuncSpec { kind: Kind::P(3), ends, coefs, source: Source::Spline, other: None, ops: vec![], post: Post::None });
     }
-    let kind = gen_kind(rng);
+    // the only piece type with &f + &g and &f - &g; over-sampled where operators are monitored
+    let kind = if derived_pct > 40 && rng.chance(1, 8) { Kind::Q } else { gen_kind(rng) };
     let ends = gen_ends(rng, n);
     let coefs: Vec<Vec<f64>> = (0..n).map(|i| gen_coefs(rng, kind, i)).collect();
     let mut spec = FuncSpec { kind, ends, coefs, source: Source::Direct, other: None, ops: vec![], post: Post::None };
     if kind == Kind::Q && rng.chance(1, 2) {
-        let m = gen_len(rng, false);
-        let oe = finite_only(gen_ends(rng, m));
         // &f + &g panics on NaN ends only; +-inf ends are fine but make every merged step trivial
         spec.ends = finite_only(spec.ends);
+        let oe = if rng.chance(1, 2) {
+            let m = gen_len(rng, false);
+            finite_only(gen_ends(rng, m))
+        } else {
+            // share breakpoints with the first operand: a sub/super-sequence of its ends
+            let mut v: Vec<f64> = Vec::new();
+            for (i, &e) in spec.ends.iter().enumerate() {
+                if rng.chance(1, 4) {
+                    let lo = if i > 0 { spec.ends[i - 1] } else { e - 2.0 };
+                    let x = lo * 0.5 + e * 0.5;
+                    if x.is_finite() && v.last().map_or(true, |&l| l <= x) {
+                        v.push(x);
+                    }
+                }
+                if rng.chance(2, 3) {
+                    v.push(e);
+                }
+            }
+            if rng.chance(1, 3) || v.is_empty() {
+                let last = *spec.ends.last().unwrap();
+                let x = last + rng.range(0, 2) as f64;
+                v.push(if x.is_finite() { x } else { last });
+            }
+            v
+        };
+        let m = oe.len();
         let oc = (0..m).map(|i| gen_coefs(rng, kind, i + 100)).collect();
         spec.other = Some(Other { sub: rng.chance(1, 2), ends: oe, coefs: oc });
     }
-    if r < 30 {
+    if r < derived_pct {
         spec = with_ops(rng, spec);
     }
     spec
